@@ -5,7 +5,7 @@ import itertools
 from vf import smallcurve
 from vf.ref import der_ref as D
 from vf.ref.ecref import SECP256K1 as S, ecdsa_verify
-from vf.runner import Acc, filler
+from vf.runner import Acc, filler, as_tuple
 
 PROPERTY = "C01"
 # E6: seq_ops() indices of the operations that are interrupted at every line (vf/seqexplore.interrupted); probes = the whole alphabet
@@ -110,7 +110,7 @@ def judge_rs(C, r, s, d, z, tag):
             out.append(("C01/der/not-strict", f"{tag}: der_encode_sig({r},{s}) = {der[1].hex()} is not strict DER "
                         f"(expected {D.encode(r, s).hex()})"))
         back = call(bu.der_decode_sig, der[1])
-        if back[0] != "ok" or tuple(back[1]) != (r, s):
+        if back[0] != "ok" or as_tuple(back[1]) != (r, s):
             out.append(("C01/der/decode-mismatch", f"{tag}: der_decode_sig(der_encode_sig({r},{s})) = {back}"))
     return out
 
